@@ -10,6 +10,7 @@ import (
 	"compress/flate"
 	"encoding/binary"
 	"errors"
+	"fmt"
 	"hash/crc32"
 	"io"
 	"unsafe"
@@ -177,15 +178,19 @@ func verifBuildFile(comp Compression, counts []int) *verifFile {
 }
 
 type verifSink struct {
-	got    []verifRec
-	failAt int
-	calls  int
+	got     []verifRec
+	failAt  int
+	calls   int
+	failErr error // nil: errVerifCallback
 }
 
 func (k *verifSink) cb(val unsafe.Pointer, rb *ResourceBank) error {
 	i := k.calls
 	k.calls++
 	if i == k.failAt {
+		if k.failErr != nil {
+			return k.failErr
+		}
 		return errVerifCallback
 	}
 	k.got = append(k.got, *(*verifRec)(val))
@@ -381,11 +386,41 @@ func verifHarness_C07_callback_error() {
 	verifAllocMax(4096)
 	f := verifBuildFile(CompressionNull, []int{2, 1})
 	at := verifChoice("failAt", 3)
-	sink := &verifSink{failAt: at}
+	// the callback's error is the caller's: it may be, or wrap, an error the
+	// reader itself gives a meaning to (io.EOF ends a file)
+	var cbErr error
+	switch verifChoice("errkind", 4) {
+	case 0:
+		cbErr = errVerifCallback
+	case 1:
+		cbErr = io.EOF
+	case 2:
+		cbErr = io.ErrUnexpectedEOF
+	case 3:
+		cbErr = fmt.Errorf("callback: %w", io.EOF)
+	}
+	sink := &verifSink{failAt: at, failErr: cbErr}
 	err := ReadFile(&verifReader{buf: f.data}, verifRec{}, sink.cb)
-	verifAssert(err == errVerifCallback, "C07:callback-error-returned-unchanged")
+	verifAssert(err == cbErr, "C07:callback-error-returned-unchanged")
 	verifAssert(sink.calls == at+1, "C07:no-callback-after-the-failing-one")
 	verifAssert(len(sink.got) == at, "C07:records-before-the-failure-were-delivered")
+	verifReach("end")
+}
+
+// A block that declares more records than its payload holds is damaged: the
+// reader must not report success (the count lies outside the compressed
+// payload, so neither checksum nor deflate stream protects it).
+func verifHarness_C07_count_exceeds_payload() {
+	verifAllocMax(4096)
+	comp := verifCompression(verifChoice("codec", 3))
+	f := verifBuildFile(comp, []int{2, 1})
+	// the first block's count is the zig-zag varint 0x04 right after the header
+	verifAssume(f.data[f.hdrEnd] == 4)
+	f.data[f.hdrEnd] = 6
+	sink := &verifSink{failAt: -1}
+	err := ReadFile(&verifReader{buf: f.data}, verifRec{}, sink.cb)
+	verifAssert(err != nil, "C07:block-declaring-more-records-than-it-holds-is-an-error")
+	verifAssert(len(sink.got) <= 2, "C07:no-record-invented-or-taken-from-a-later-block")
 	verifReach("end")
 }
 
